@@ -232,6 +232,7 @@ class Inliner:
         self.failed: Set[str] = set()
         self.inlined_sites: Dict[str, int] = {}
         self.renamed: Set[str] = set()
+        self.renamed_back: Dict[str, str] = {}
 
     def collect(self) -> None:
         names: Dict[str, List[Tuple[str, ast.AST, List[ast.AST]]]] = {}
@@ -243,11 +244,49 @@ class Inliner:
         present = {qn for mod, tree in self.trees.items() for qn, node, chain in qualnames(tree, mod)}
         kp = load_known_params()
         gone: Dict[str, List[List[str]]] = {}
+        gone_names: Dict[str, List[Tuple[str, List[str]]]] = {}
         for qn in self.known - present:
             gone.setdefault(_scope(qn), []).append(kp.get(qn, []))
+            gone_names.setdefault(_scope(qn), []).append((qn, kp.get(qn, [])))
+        # a consistent rename (one reference function gone, one new function of the same scope and parameters, the new name used
+        # nowhere else as a definition) is undone in the model: definition and every reference get the reference name back, so
+        # the rules - which know the reference names - analyse the same program
+        new_by_scope: Dict[str, List[Tuple[str, ast.AST]]] = {}
         for mod, tree in self.trees.items():
             for qn, node, chain in qualnames(tree, mod):
-                if every[node.name] != 1:
+                if qn not in self.known:
+                    new_by_scope.setdefault(_scope(qn), []).append((qn, node))
+        pairs: Dict[str, List[Tuple[str, ast.AST, str]]] = {}
+        for sc, lst in gone_names.items():
+            for old_qn, prm in lst:
+                cands = [(qn, node) for qn, node in new_by_scope.get(sc, [])
+                         if [x.arg for x in node.args.posonlyargs + node.args.args + node.args.kwonlyargs] == prm]
+                same_sig_gone = [q for q, p_ in lst if p_ == prm]
+                if len(cands) != 1 or len(same_sig_gone) != 1:
+                    continue
+                qn, node = cands[0]
+                pairs.setdefault(node.name, []).append((qn, node, old_qn))
+        for new_name, lst2 in pairs.items():
+            olds = {old_qn.rsplit(".", 1)[-1].split(":")[-1] for _, _, old_qn in lst2}
+            if len(olds) != 1 or every.get(new_name, 0) != len(lst2):
+                continue            # the new name is also the name of something else: references cannot be told apart
+            old_name = next(iter(olds))
+            for tree in self.trees.values():
+                for x in ast.walk(tree):
+                    if isinstance(x, ast.Attribute) and x.attr == new_name:
+                        x.attr = old_name
+                    elif isinstance(x, ast.Name) and x.id == new_name:
+                        x.id = old_name
+                    elif isinstance(x, ast.alias) and x.name == new_name:
+                        x.name = old_name
+            for qn, node, old_qn in lst2:
+                node.name = old_name
+                self.renamed_back[qn] = old_qn
+            every[old_name] = every.get(old_name, 0) + len(lst2)
+            every[new_name] = 0
+        for mod, tree in self.trees.items():
+            for qn, node, chain in qualnames(tree, mod):
+                if every.get(node.name, 0) != 1:
                     continue            # an override / a namesake of another function: a call cannot be matched by name
                 a_ = node.args
                 if qn not in self.known and [x.arg for x in a_.posonlyargs + a_.args + a_.kwonlyargs] in gone.get(_scope(qn), []):
@@ -544,7 +583,10 @@ class Inliner:
 
     def run(self) -> Dict[str, str]:
         self.collect()
-        report: Dict[str, str] = {qn: "takes the place of a reference function that is gone (same scope, same parameters): a rename, left alone" for qn in self.renamed}
+        report: Dict[str, str] = {}
+        for qn, old_qn in self.renamed_back.items():
+            report[qn] = f"a consistent rename of the reference function {old_qn}: analysed under the reference name"
+        report.update({qn: "takes the place of a reference function that is gone (same scope, same parameters): a rename, left alone" for qn in self.renamed})
         if not self.helpers:
             return report
         for _ in range(3):
